@@ -312,7 +312,7 @@ def build_cpp(name, src, defines=(), san=True, extra=(), opt=None, std_inc=True,
             os.makedirs(covdir, exist_ok=True)
             exe = os.path.join(covdir, name)
             flags = [f for f in flags if not f.startswith("-O")] + ["-O0", "--coverage"]
-        key = tree_hash([INC, srcp, os.path.join(ROOT, "cpp", "common.hpp")], " ".join(flags))
+        key = tree_hash([INC, os.path.join(ROOT, "cpp")], src + " " + " ".join(flags))     # the whole cpp/ directory: drivers include one another
         keyf = exe + ".key"
         if os.path.exists(exe) and os.path.exists(keyf) and open(keyf).read() == key:
             return exe, "cached"
